@@ -1151,7 +1151,11 @@ Proof. unfold limit_of. now intros ->. Qed.
 (* C06 dec_limit_iff: with the five prefix bytes buffered and a legal flag, the declared
    length is refused with OUT_OF_RANGE iff it exceeds the limit; a refused length leaves no
    Reserve event (nothing was allocated for it), an accepted one logs exactly Reserve len -
-   whatever follows the prefix in the buffer ([more] is arbitrary, possibly empty). *)
+   whatever follows the prefix in the buffer ([more] is arbitrary, possibly empty).
+   The limit L = [limit_of d] ranges over ALL of N (usize is modelled unbounded): a configured
+   limit at or above 2^32 (2^32, 2^32+16, 2^63, usize::MAX-1, ...) is compared as it stands,
+   never reduced modulo 2^32, so it accepts every length the 4-byte field can declare
+   (len < 2^32 whenever the four length bytes are bytes). *)
 Theorem dec_limit_iff : forall (d : dec) fl a b c x more,
   d_state d = ReadHeader -> d_buf d = fl :: a :: b :: c :: x :: more -> legal_flag d fl ->
   let len := un_be32 a b c x in
